@@ -744,13 +744,16 @@ func inAnyLoop(b *ssa.BasicBlock) bool {
 // and maximum number of instructions satisfying match.  Blocks satisfying
 // stop are not scanned.
 func pathCount(from *ssa.BasicBlock, match func(ssa.Instruction) bool, stop func(*ssa.BasicBlock) bool) (min, max int) {
-	type res struct{ min, max int }
+	type res struct {
+		min, max int
+		ok       bool // some path from here reaches an exit or a stop block
+	}
 	memo := map[*ssa.BasicBlock]res{}
 	onstack := map[*ssa.BasicBlock]bool{}
 	var walk func(b *ssa.BasicBlock) res
 	walk = func(b *ssa.BasicBlock) res {
 		if stop != nil && stop(b) && b != from {
-			return res{0, 0}
+			return res{0, 0, true}
 		}
 		if r, ok := memo[b]; ok {
 			return r
@@ -762,29 +765,50 @@ func pathCount(from *ssa.BasicBlock, match func(ssa.Instruction) bool, stop func
 				n++
 			}
 		}
-		r := res{-1, -1}
+		r := res{-1, -1, false}
+		if len(b.Succs) == 0 {
+			r = res{0, 0, true}
+		}
 		for _, s := range b.Succs {
 			if isBackEdge(b, s) || onstack[s] {
+				// a path cut at a back edge is a prefix of paths that leave
+				// the loop through its exits; it is not an exit itself -
+				// unless the loop header is the stop block
+				if stop != nil && stop(s) {
+					if !r.ok || 0 < r.min {
+						r.min = 0
+					}
+					if !r.ok || r.max < 0 {
+						r.max = 0
+					}
+					r.ok = true
+				}
 				continue
 			}
 			sr := walk(s)
-			if r.min < 0 || sr.min < r.min {
+			if !sr.ok {
+				continue
+			}
+			if !r.ok || sr.min < r.min {
 				r.min = sr.min
 			}
-			if sr.max > r.max {
+			if !r.ok || sr.max > r.max {
 				r.max = sr.max
 			}
+			r.ok = true
 		}
-		if r.min < 0 {
-			r = res{0, 0}
+		if r.ok {
+			r.min += n
+			r.max += n
 		}
-		r.min += n
-		r.max += n
 		onstack[b] = false
 		memo[b] = r
 		return r
 	}
 	r := walk(from)
+	if !r.ok {
+		return 0, 0
+	}
 	return r.min, r.max
 }
 
